@@ -8,6 +8,7 @@ and the call sites / statements passed. A discriminant already decided earlier o
 not produce infeasible paths. This is constant propagation over a finite lattice of predicate
 valuations on the source's CFG: it executes nothing and calls no solver. It fails closed:
 exceeding the path budget raises CannotDecide."""
+import re
 from collections import namedtuple
 
 
@@ -31,8 +32,67 @@ def _norm_discr(fn, op, sites):
     return e, neg
 
 
-def enumerate_paths(fn, start=0, stop_blocks=(), budget=50000, sites=False, dty_bool_only=False):
-    """All acyclic paths from `start`. `stop_blocks`: blocks at which a path ends ('stop')."""
+def classifier_summary(callee, budget=4000):
+    """Summary of a local, loop-free function that classifies its arguments into a finite result (a field-less
+    enum variant or a bool): [(result, conds)] with one row per path, `result` the variant name / 'true' /
+    'false', `conds` the path's decisions over the callee's own canonical expressions (`arg:<param>` ...).
+    None if the function is not of that shape (then the caller keeps treating the call as opaque)."""
+    if getattr(callee, "_clsf_summary", "unset") != "unset":
+        return callee._clsf_summary
+    rows = None
+    try:
+        paths = enumerate_paths(callee, budget=budget)
+        rows = []
+        for p in paths:
+            if p.end == "diverge":
+                continue
+            if p.end != "return":
+                rows = None
+                break
+            v = path_value(callee, p, 0)
+            if v is None:
+                rows = None
+                break
+            m = re.match(r"^([\w:<>]+)::(\w+)\{\}$", v)
+            if m:
+                res = m.group(2)
+            elif v in ("true", "false"):
+                res = v
+            else:
+                rows = None
+                break
+            rows.append((res, tuple(p.conds)))
+    except CannotDecide:
+        rows = None
+    callee._clsf_summary = rows
+    return rows
+
+
+def _call_site_args(fn, inner):
+    """argument expressions of the call in `fn` whose canonical expression is `inner`"""
+    cache = getattr(fn, "_call_expr_cache", None)
+    if cache is None:
+        cache = {}
+        for b in sorted(fn.normal_blocks()):
+            t = fn.blocks[b]["t"]
+            if t["k"] == "call":
+                cache.setdefault(fn.expr_call(t), t)
+        fn._call_expr_cache = cache
+    return cache.get(inner)
+
+
+def _subst(expr, mapping):
+    for a, b in mapping:
+        expr = re.sub(r"(?<![\w:])" + re.escape(a) + r"(?![\w])", lambda _m: b, expr)
+    return expr
+
+
+def enumerate_paths(fn, start=0, stop_blocks=(), budget=50000, sites=False, dty_bool_only=False, inline=None):
+    """All acyclic paths from `start`. `stop_blocks`: blocks at which a path ends ('stop').
+    `inline`: a Facts object; a switch on the result of a local classifier function (see
+    classifier_summary) is then expanded into the callee's own decisions, with the callee's parameters
+    replaced by the caller's argument expressions, so that `match Bucket::of(f) {..}` yields the same
+    decision rows as the if-chain it replaced."""
     out = []
     stop_blocks = set(stop_blocks)
     count = [0]
@@ -92,6 +152,44 @@ def enumerate_paths(fn, start=0, stop_blocks=(), budget=50000, sites=False, dty_
                     neg = not neg
         return e, neg
 
+    def summary_rows(e, isbool):
+        """[(result value as the caller's switch sees it, [(expr, val)...])] or None"""
+        inner = e
+        m = re.match(r"^discr\((.*)\)$", e)
+        if m and not isbool:
+            inner = m.group(1)
+        elif not isbool:
+            return None
+        t = _call_site_args(fn, inner)
+        if t is None or not t.get("local"):
+            return None
+        callee = inline.fns.get(t["callee"])
+        if callee is None or callee is fn:
+            return None
+        rows = classifier_summary(callee)
+        if not rows:
+            return None
+        mapping = []
+        for k, a in enumerate(t["args"]):
+            mapping.append((callee.local_name(k + 1), fn.expr_operand(a)))
+        variants = None
+        if not isbool:
+            rt = callee.locals[0]["ty"] if isinstance(callee.locals[0], dict) else str(callee.locals[0])
+            adt = inline.adts.get(rt)
+            if adt is None:
+                return None
+            variants = [v["name"] for v in adt["variants"]]
+        outrows = []
+        for res, conds in rows:
+            if isbool:
+                val = 1 if res == "true" else 0
+            else:
+                if res not in variants:
+                    return None
+                val = variants.index(res)
+            outrows.append((val, [(_subst(ce, mapping), cv) for ce, cv in conds]))
+        return outrows
+
     def walk(bb, conds, blocks, assumed, env=None):
         env = env or {}
         while True:
@@ -146,7 +244,28 @@ def enumerate_paths(fn, start=0, stop_blocks=(), budget=50000, sites=False, dty_
                         bb = consistent[0][1]
                         continue
                     branches = consistent or branches
+                expansion = summary_rows(e, isbool) if inline is not None else None
                 for v, tb in branches:
+                    if expansion is not None:
+                        # one sub-path per callee row whose result takes this branch
+                        for res_val, extra in expansion:
+                            if not _consistent(v, res_val):
+                                continue
+                            a2 = dict(assumed)
+                            ok = True
+                            for ce, cv in extra:
+                                if ce in a2 and not _consistent(a2[ce], cv):
+                                    ok = False
+                                    break
+                                a2[ce] = cv
+                            if not ok:
+                                continue
+                            count[0] += 1
+                            if count[0] > budget:
+                                raise CannotDecide(f"path budget {budget} exceeded in {fn.name} (bb{bb})")
+                            a2[e] = v
+                            walk(tb, conds + [(e, v)] + list(extra), blocks, a2, env)
+                        continue
                     count[0] += 1
                     if count[0] > budget:
                         raise CannotDecide(
